@@ -51,6 +51,19 @@ def _search_shape(ctx, f, what, elem_desc):
     return start_arg
 
 
+def _tuple_field_keys(body, local, i):
+    """place keys under which field i of tuple `local` is read in discriminant statements / switches"""
+    import json as _json
+    out = set()
+    for b in body.blocks:
+        for st in b["stmts"]:
+            rv = st.get("rv") or {}
+            pl = rv.get("place") if rv.get("k") == "discr" else None
+            if pl and pl["l"] == local and len(pl["p"]) == 1 and pl["p"][0].get("f") == i:
+                out.add(place_key(pl))
+    return out
+
+
 def r3_3(ctx):
     prog = ctx.prog
     pm = prog.fn("DiffTool::peek_match")
@@ -80,28 +93,64 @@ def r3_3(ctx):
     ea = o.operand(lt["args"][1])
     ctx.check(ea.has_call("Index::index") and any(n.kind == "arg" and n.a == 4 for n in ea.walk()), "line-search-expectation", pm.loc(lb),
               "later lines are tried against the current expectation EXPS[E]")
-    # nearest later expectation is preferred: the line search is attempted only on the None edge of the expectation search
-    ve, rv = variant_edges(pm, et["target"])
-    if ve is None:
-        ctx.bad("prefer-expectation", pm.loc(eb), "the expectation search result is not matched")
-    else:
-        pk = place_key(rv["place"])
-        some = set(explore(pm, ve["Some"], {pk: "Some"}).keys())
-        none = set(explore(pm, ve["None"], {pk: "None"}).keys())
-        ctx.check(lb in none and lb not in some and pm.dominates(eb, lb), "prefer-expectation", pm.loc(et["target"]),
-                  "a later expectation that matches the current line is preferred; the line search runs only if there is none",
-                  "the line search is not confined to the None edge of the expectation search")
-        kinds = {}
-        for bb, si, rvv in aggregates(pm, "PeekMatch"):
-            kinds[rvv["variant"]] = (bb, si, rvv)
-        okv = set(kinds) == {"NextExpectation", "NextLine", "None"}
-        ctx.check(okv, "peek-variants", pm.where(), "peek_match produces NextExpectation / NextLine / None")
-        if okv:
-            ne = peel(o.operand(kinds["NextExpectation"][2]["ops"][0]))
-            nl = peel(o.operand(kinds["NextLine"][2]["ops"][0]))
-            ctx.check(ne.has_call("DiffTool::peek_matching_expectation") and kinds["NextExpectation"][0] in some - none, "next-expectation-payload", stmt_loc(pm, kinds["NextExpectation"][0], kinds["NextExpectation"][1]),
+    # nearest later expectation is preferred: on every feasible path on which the expectation search found something the result is
+    # NextExpectation (whether the line search is run lazily on the None edge or eagerly beforehand is immaterial, both searches are pure)
+    import json as _json
+    dest = et["dest"]
+    if dest["p"]:
+        raise AnchorError("peek_match: expectation search result is not stored in a local")
+    aliases = {place_key(dest)}
+    changed = True
+    while changed:
+        changed = False
+        for b in pm.blocks:
+            if b["cleanup"]:
+                continue
+            for st in b["stmts"]:
+                if st["k"] != "assign" or st["lhs"]["p"]:
+                    continue
+                rv = st.get("rv") or {}
+                new = set()
+                if rv.get("k") == "use":
+                    src = rv["op"].get("copy") or rv["op"].get("move")
+                    if src and place_key(src) in aliases:
+                        new.add(place_key(st["lhs"]))
+                elif rv.get("k") == "agg" and rv.get("agg") == "tuple":
+                    for i, op in enumerate(rv["ops"]):
+                        src = op.get("copy") or op.get("move")
+                        if src and place_key(src) in aliases:
+                            new.update(k for k in _tuple_field_keys(pm, st["lhs"]["l"], i))
+                if new - aliases:
+                    aliases |= new
+                    changed = True
+    states = explore(pm, 0)
+    kinds = {}
+    for bb, si, rvv in aggregates(pm, "PeekMatch"):
+        kinds.setdefault(rvv["variant"], []).append((bb, si, rvv))
+    okv = set(kinds) == {"NextExpectation", "NextLine", "None"}
+    ctx.check(okv, "peek-variants", pm.where(), "peek_match produces NextExpectation / NextLine / None")
+
+    def known(bb):
+        out = set()
+        for vf, _bf in states.get(bb, ()):
+            vals = {v for k, v in dict(vf).items() if k in aliases}
+            out.add(next(iter(vals)) if len(vals) == 1 else None)
+        return out
+    if okv:
+        for vname in ("NextLine", "None"):
+            for bb, si, rvv in kinds[vname]:
+                ks = known(bb)
+                ctx.check(ks == {"None"}, "prefer-expectation:%s" % vname, stmt_loc(pm, bb, si),
+                          "PeekMatch::%s is produced only on paths where the expectation search found nothing" % vname,
+                          "PeekMatch::%s is produced on a path where a later expectation matches the current line (search result %s): the nearest "
+                          "later expectation is not preferred" % (vname, sorted(str(k) for k in ks)))
+        for bb, si, rvv in kinds["NextExpectation"]:
+            ne = peel(o.operand(rvv["ops"][0]))
+            ctx.check(ne.has_call("DiffTool::peek_matching_expectation") and known(bb) == {"Some"}, "next-expectation-payload", stmt_loc(pm, bb, si),
                       "NextExpectation carries the expectation search result")
-            ctx.check(nl.has_call("DiffTool::peek_matching_line"), "next-line-payload", stmt_loc(pm, kinds["NextLine"][0], kinds["NextLine"][1]), "NextLine carries the line search result")
+        for bb, si, rvv in kinds["NextLine"]:
+            nl = peel(o.operand(rvv["ops"][0]))
+            ctx.check(nl.has_call("DiffTool::peek_matching_line"), "next-line-payload", stmt_loc(pm, bb, si), "NextLine carries the line search result")
     _search_shape(ctx, prog.fn("DiffTool::peek_matching_expectation"), "peek_matching_expectation", "expectation")
     _search_shape(ctx, prog.fn("DiffTool::peek_matching_line"), "peek_matching_line", "line")
     # bounds of the direct index in peek_match (`lines[current_line_index]`) are discharged by R3.3 peek-args (L in bounds at the call)
